@@ -273,7 +273,25 @@ func loopSkipsWithout(g *chk.Graph, rs *ast.RangeStmt, must func(ast.Node) bool,
 		}
 		return false
 	}
-	return dfs(body)
+	if !dfs(body) {
+		return false
+	}
+	// a path found without regard to feasibility: decide it again with the conditions and flags on the way (a helper
+	// expanded in place leaves `r = err; goto L; L: if r != nil { return }` shapes whose skipping path cannot be taken)
+	guard := chk.GEvent(must)
+	if !except.IsNone() {
+		guard = chk.GOr(guard, except)
+	}
+	ends := g.LoopIteration(rs, guard)
+	if len(ends) == 0 {
+		return true
+	}
+	for _, e := range ends {
+		if !e.Break && !e.OK {
+			return true
+		}
+	}
+	return false
 }
 
 // syncStateRule is shared by C06 and C07: every switch over the handler's
